@@ -278,9 +278,12 @@ namespace sbepp
 #    define SBEPP_ASSERT(expr) assert(expr)
 #endif
 
-#define SBEPP_SIZE_CHECK(begin, end, offset, size) \
-    SBEPP_ASSERT(                                  \
-        (begin)                                    \
+// `begin <= end` is checked explicitly because views of members located past
+// the end of a (truncated) buffer have `begin > end`, negative difference
+// converted to `std::size_t` would pass any check
+#define SBEPP_SIZE_CHECK(begin, end, offset, size)                      \
+    SBEPP_ASSERT(                                                       \
+        (begin) && ((begin) <= (end))                                   \
         && (((offset) + (size)) <= static_cast<std::size_t>((end) - (begin))))
 
 //! @brief The main `sbepp` namespace
